@@ -55,13 +55,14 @@ def render_doc(case, root, hint=False):
     tns = case['tns']
     h = None
     if hint: h = ('schemaLocation', '%s s.xsd' % tns) if tns else ('noNamespaceSchemaLocation', 's.xsd')
-    return xm.render_instance(root, nsprefix={im.TNS: 'p'} if tns else None, hint=h, extra_ns=im.QNAME_NS)
+    return xm.render_instance(root, nsprefix={im.TNS: 'p', 'urn:v': 'v', 'urn:w': 'w'}, hint=h, extra_ns=im.QNAME_NS)
 
 @st.composite
 def ic_case(draw, tier):
     ext = draw(st.integers(0, 2)) > 0
     big = draw(st.integers(0, 24)) == 0
-    c = draw(im.gen_case(ext=ext, big=big, propagate=not EX(PROPAGATED)))
+    if draw(st.integers(0, 2)) == 0: c = draw(im.gen_case_ns(big=big))        # multi-namespace lane: namespace-wildcard steps and their unions
+    else: c = draw(im.gen_case(ext=ext, big=big, propagate=not EX(PROPAGATED)))
     c['cfg'] = {'api': draw(st.sampled_from(['sax2', 'dom'])), 'scanner': draw(st.sampled_from(['IG', 'IG', 'SG'])), 'fullcheck': draw(st.sampled_from([1, 0])),
                 'route': draw(st.sampled_from(['cached'] * 4 + ['hint']))}
     c['perm'] = im.permuted(draw, c['root'])
@@ -109,13 +110,12 @@ def known_class(case, root):
 
 def model_of(case):
     tns = case['tns']
-    return im.ICModel(case['ics'], im.typing_for(tns, case['T']), {'r': (tns, 'r'), 'g': (tns, 'g')})
+    return im.ICModel(case['ics'], im.typing_for(tns, case['T']), {'r': (tns, 'r'), 'g': (case.get('lns', tns), 'g')})
 
 def check_ic(ctx, ex, c, tier):
     st_ = ctx.stats
     cfg = dict(c['cfg']); tns = c['tns']
-    schema = im.render_schema(tns, c['T'], c['ics'], c['style'])
-    texts = {'s.xsd': schema}
+    texts = im.render_schemas(c); schema = texts['s.xsd']
     case_fid = None
     if cfg['scanner'] == 'SG' and cfg['route'] == 'cached' and not tns:
         if EX(SG_CACHED_NONS): st_.excluded_known[SG_CACHED_NONS] += 1; cfg['route'] = 'hint'
@@ -214,6 +214,6 @@ def worker(ctx):
                 if os.environ.get('VERIF_STOP_AFTER_FAIL'): ctx.deadline = 0      # sensitivity runs: first detection is enough, skip shrinking
                 raise
             except xv.ExecutorDied as e:
-                raise PropertyFailure({'lane': 'died', 'schemas': {'s.xsd': im.render_schema(c['tns'], c['T'], c['ics'], c['style'])}, 'cfg': c['cfg'],
+                raise PropertyFailure({'lane': 'died', 'schemas': im.render_schemas(c), 'cfg': c['cfg'],
                                        'doc': render_doc(c, c['root'])}, 'executor died rc=%s\n%s' % (e.rc, e.stderr[-3000:]))
         hyp_run(ctx, strat, prop, ctx.budget, batches=4, seed_salt=7)
